@@ -43,6 +43,10 @@ ParseOk(o) == o.oracle.parse.ok
 ValidAll(o) == ParseOk(o) /\ o.oracle.valid_all.ok
 RetOk(o) == o.ret.kind = "ok"
 Projected(o) == RetOk(o) /\ Has(o, "out")
+(* compiled / executed modules *)
+Compiled(o) == Has(o, "compile") /\ o.compile.outcome = "ok"
+RtOf(o, p) == IF Has(o, "rt") THEN SelectSeq(o.rt, LAMBDA e : e.probe = p) ELSE << >>
+ProbeFail(o, p) == IF Has(o, "compile") THEN { x.message : x \in { y \in Range(o.compile.probe_fail) : y.probe = p } } ELSE {}
 
 (* ------------------------------------------------------------------ C11 *)
 Decls(S) == [ i \in DOMAIN Resources(S) |-> << Resources(S)[i].gr, Resources(S)[i].br >> ]
@@ -99,6 +103,54 @@ C03(c, o) ==
             ELSE {})
       \cup UNION { Chk(Range(o.oracle.vis[Resources(S)[i].name]) = Vis(S, Resources(S)[i].name),
                        "ORACLE naga global use of " \o Resources(S)[i].name \o " disagrees with Vis") : i \in DOMAIN Resources(S) } ]
+
+(* C03 on the values the compiled module really passes to the device (recording shim): every create_bind_group_layout
+   recorded while building the pipeline layout, and the recorded push constant range / PUSH_CONSTANT_STAGES *)
+C03R(c, o) ==
+  IF ~(HasS(c) /\ ValidAll(o) /\ RetOk(o) /\ Compiled(o)) THEN NoVerdict ELSE
+  LET S == c.S
+      evs == RtOf(o, "pipeline_layout")
+      bgls == SelectSeq(evs, LAMBDA e : e.ev = "rt.create_bgl")
+      order == RUN!GroupOrder(S)
+      pl == SelectSeq(evs, LAMBDA e : e.ev = "rt.create_pipeline_layout")
+      ps == SelectSeq(evs, LAMBDA e : e.ev = "rt.push_stages")
+  IN [ dom |-> evs # << >>, fails |->
+       Chk(Len(bgls) = Len(order), "recorded " \o Str(Len(bgls)) \o " bind group layouts for " \o Str(Len(order)) \o " groups")
+       \cup (IF Len(bgls) = Len(order) THEN
+               UNION { UNION { LET e == bgls[i].entries[j]
+                                   name == ResName(S, order[i], e.binding)
+                               IN Chk(Range(e.vis) = Vis(S, name), "recorded visibility of " \o name \o " is " \o ToJson(Range(e.vis)) \o " but the stages statically using it are " \o ToJson(Vis(S, name)))
+                               : j \in DOMAIN bgls[i].entries } : i \in DOMAIN bgls }
+             ELSE {})
+       \cup (IF PushUsed(S) THEN
+               Chk(Len(ps) = 1 /\ Range(ps[1].stages) = PushExpected(S), "recorded PUSH_CONSTANT_STAGES differ from " \o ToJson(PushExpected(S)))
+               \cup Chk(Len(pl) = 1 /\ Len(pl[1].push_ranges) = 1 /\ Range(pl[1].push_ranges[1].stages) = PushExpected(S), "recorded push constant range stages differ from " \o ToJson(PushExpected(S)))
+             ELSE {}) ]
+
+(* C13 on the recorded pipeline layout descriptor, plus wgpu's own acceptance of it *)
+C13R(c, o) ==
+  IF ~(HasS(c) /\ ValidAll(o) /\ RetOk(o) /\ Compiled(o) /\ Len(c.S.entries) > 0) THEN NoVerdict ELSE
+  LET S == c.S
+      has == PushGlobals(S) # << >>
+      evs == RtOf(o, "pipeline_layout")
+      pl == SelectSeq(evs, LAMBDA e : e.ev = "rt.create_pipeline_layout")
+      ps == SelectSeq(evs, LAMBDA e : e.ev = "rt.push_stages")
+      real == { e \in Range(RtOf(o, "wgpu")) : Has(e, "err") /\ e.call = "create_pipeline_layout" /\ ~Has(e, "device") }
+  IN [ dom |-> evs # << >> \/ RtOf(o, "wgpu") # << >>, fails |->
+       (IF evs = << >> THEN {} ELSE
+         Chk(Len(pl) = 1, "create_pipeline_layout recorded " \o Str(Len(pl)) \o " pipeline layouts")
+         \cup (IF Len(pl) = 1 THEN
+                 Chk(Len(pl[1].push_ranges) = (IF has THEN 1 ELSE 0), "recorded push constant ranges: " \o Str(Len(pl[1].push_ranges)) \o ", push constant declared: " \o Str(has))
+                 \cup (IF has /\ Len(pl[1].push_ranges) = 1 THEN
+                         LET r == pl[1].push_ranges[1]
+                             wsize == L!SizeOf(S, PushGlobals(S)[1].ty) IN
+                         Chk(r.start = "0" /\ r.end = Str(wsize), "recorded push constant range " \o r.start \o ".." \o r.end \o " but the variable has WGSL size " \o Str(wsize))
+                         \cup Chk(Range(r.stages) = PushExpected(S), "recorded range stages " \o ToJson(Range(r.stages)) \o " expected " \o ToJson(PushExpected(S)))
+                         \cup Chk(Len(ps) = 1 /\ Range(ps[1].stages) = Range(r.stages), "PUSH_CONSTANT_STAGES differs from the range's stages")
+                       ELSE {})
+               ELSE {})
+         \cup Chk((Len(ps) = 1) = has, "PUSH_CONSTANT_STAGES exported: " \o Str(Len(ps)) \o ", push constant declared: " \o Str(has)))
+       \cup { "wgpu rejects the pipeline layout: " \o e.err : e \in real } ]
 
 (* ------------------------------------------------------------------ C08 *)
 C08(c, o) ==
@@ -220,9 +272,6 @@ C05(c, o) ==
   [ dom |-> TRUE, fails |-> UNION { C05Struct(c.S, o, o.out.structs[i]) : i \in DOMAIN o.out.structs } ]
 
 (* ------------------------------------------------------------------ compiled / executed modules *)
-Compiled(o) == Has(o, "compile") /\ o.compile.outcome = "ok"
-RtOf(o, p) == IF Has(o, "rt") THEN SelectSeq(o.rt, LAMBDA e : e.probe = p) ELSE << >>
-ProbeFail(o, p) == IF Has(o, "compile") THEN { x.message : x \in { y \in Range(o.compile.probe_fail) : y.probe = p } } ELSE {}
 
 (* ------------------------------------------------------------------ C04 *)
 C04(c, o) ==
@@ -566,6 +615,8 @@ CONF(c, o) ==
 Judge0(c, o) ==
   CASE Enforce = "C11" -> C11(c, o)
     [] Enforce = "C03" -> C03(c, o)
+    [] Enforce = "C03R" -> C03R(c, o)
+    [] Enforce = "C13R" -> C13R(c, o)
     [] Enforce = "C08" -> C08(c, o)
     [] Enforce = "C20" -> C20(c, o)
     [] Enforce = "C13" -> C13(c, o)
@@ -592,7 +643,7 @@ Judge(c, o) ==
     [] Enforce = "C18" -> C18(c, o)
     [] OTHER -> Stateless(Judge0(c, o), c)
 
-Emit1(c, m) == PrintT("VERDICT " \o ToJson([ prop |-> (IF Enforce = "C05S" THEN "C05" ELSE IF Enforce = "C07W" THEN "C07" ELSE Enforce), id |-> c.id, family |-> c.family, msg |-> m ]))
+Emit1(c, m) == PrintT("VERDICT " \o ToJson([ prop |-> (IF Enforce = "C05S" THEN "C05" ELSE IF Enforce = "C07W" THEN "C07" ELSE IF Enforce = "C03R" THEN "C03" ELSE IF Enforce = "C13R" THEN "C13" ELSE Enforce), id |-> c.id, family |-> c.family, msg |-> m ]))
 
 Init == l = 1 /\ cur = [ id |-> "", has_s |-> FALSE ] /\ nj = 0 /\ nbad = 0 /\ memo = [ sha |-> "", m |-> << >> ] /\ ph = << >> /\ hk = << >>
         /\ TLCSet(1, 0) /\ TLCSet(2, 0)
